@@ -12,6 +12,7 @@
 #include "case_io.hpp"
 
 namespace c10 {
+volatile int* g_step = nullptr;
 #define X(n) std::string run_##n(const std::vector<std::string>& w);
 X(1) X(2) X(3) X(4) X(5) X(8) X(10) X(255) X(256) X(300)
 #undef X
@@ -32,7 +33,7 @@ std::string run_case(const std::vector<std::string>& w)
 }
 
 // shared between parent and child: index of the running case, whether its result was printed
-struct Shared { volatile size_t idx; volatile int printed; };
+struct Shared { volatile size_t idx; volatile int printed; volatile int step; };
 
 std::string crash_kind(const std::string& err, int status)
 {
@@ -88,7 +89,8 @@ int main(int argc, char** argv)
       char tmpl[] = "/verif/.work/c10_err_XXXXXX";
       int efd = ::mkstemp(tmpl);
       if (efd < 0) { char t2[] = "/tmp/c10_err_XXXXXX"; efd = ::mkstemp(t2); ::unlink(t2); } else ::unlink(tmpl);
-      sh->idx = next; sh->printed = 0;
+      sh->idx = next; sh->printed = 0; sh->step = 0;
+      c10::g_step = &sh->step;
       std::fflush(stdout);
       const pid_t pid = ::fork();
       if (pid == 0)
@@ -96,7 +98,7 @@ int main(int argc, char** argv)
          ::dup2(efd, 2);
          for (size_t i = next; i < cases.size(); ++i)
          {
-            sh->idx = i; sh->printed = 0;
+            sh->idx = i; sh->printed = 0; sh->step = 0;
             ::alarm(20);
             const std::string res = run_case(cases[i]);
             std::printf("%s %s\n", cases[i][0].c_str(), res.c_str());
@@ -119,7 +121,7 @@ int main(int argc, char** argv)
       if (!sh->printed)
       {
          std::string kind = (WIFSIGNALED(status) && WTERMSIG(status) == SIGALRM) ? "timeout" : crash_kind(err, status);
-         std::printf("%s CRASH:%s\n", cases[i][0].c_str(), kind.c_str());
+         std::printf("%s CRASH:%s@%d\n", cases[i][0].c_str(), kind.c_str(), static_cast<int>(sh->step));
          std::fflush(stdout);
       }
       next = i + 1;
